@@ -18,38 +18,49 @@ type rc struct{ io.Reader }
 
 func (rc) Close() error { return nil }
 
-// CR <opts|-> <data> <chunk> <failAt> <eofWithData> <size>…
+// CR <opts|-> <data> <chunk> <failAt> <eofWithData> <tok>…
+// tok: <size> one Read(len=size) · A=<opts> Apply · R=<data>:<chunk>:<failAt>:<ewd> Reset(new source)
+// The last size is repeated until io.EOF or an error (at most 100000 calls).  Once a Read of a
+// session returned an error the remaining sizes of that session are skipped.
 func implCR(f []string, o *oracleSink) string {
-	data := parseData(f[2])
-	src := &scriptSrc{data: data, chunk: atoi(f[3]), failAt: atoi(f[4]), eofWithData: f[5] == "1"}
+	mkSrc := func(d, chunk, fa, ewd string) *scriptSrc {
+		return &scriptSrc{data: loadBlob(d), chunk: atoi(chunk), failAt: atoi(fa), eofWithData: ewd == "1"}
+	}
+	src := mkSrc(f[2], f[3], f[4], f[5])
 	zr := lz4.NewCompressingReader(rc{src})
 	var aerr error
 	kv := map[string]int{"bs": 4 << 20, "bc": 0, "cc": 1, "sz": 0}
-	if f[1] != "-" {
-		opts, k2 := parseOptsGo(f[1])
-		aerr = zr.Apply(opts...)
-		if aerr == nil {
+	kvValid := true
+	var res, notes []string
+	apply := func(s string) error {
+		opts, k2 := parseOptsGo(s)
+		var err error
+		if r, ok := timed(func() string { err = zr.Apply(opts...); return "" }); !ok || r != "" {
+			notes = append(notes, "HANG")
+			return fmt.Errorf("HANG-OR-PANIC:%s", r)
+		}
+		if err == nil {
 			for k, v := range k2 {
 				kv[k] = v
 			}
+		} else {
+			kvValid = false
 		}
+		return err
 	}
-	sizes := []int{}
-	for _, s := range f[6:] {
-		sizes = append(sizes, atoi(s))
+	if f[1] != "-" {
+		aerr = apply(f[1])
 	}
-	var res, notes []string
 	var all []byte
-	last := 0
 	total := 0
-	eof := false
-	for i := 0; i < 100000; i++ {
-		n := last
-		if len(sizes) > 0 {
-			n, sizes = sizes[0], sizes[1:]
-		}
-		last = n
+	ended, eof := false, false
+	// one Read; returns false when the whole run has to stop (anomaly)
+	readOne := func(n int) bool {
 		buf := make([]byte, n)
+		// the caller's buffer is dirty: nothing but the n returned bytes may matter
+		for k := range buf {
+			buf[k] = 0xC3
+		}
 		var got int
 		var err error
 		r, ok := timed(func() string {
@@ -59,11 +70,11 @@ func implCR(f []string, o *oracleSink) string {
 		if !ok || r != "" {
 			res = append(res, "HANG-OR-PANIC:"+r)
 			notes = append(notes, "HANG")
-			break
+			return false
 		}
 		if got > n || got < 0 {
 			notes = append(notes, "BADCOUNT")
-			break
+			return false
 		}
 		if len(res) < 60 {
 			res = append(res, fmt.Sprintf("%d/%d/%s", got, fnv(buf[:got]), errName(err)))
@@ -72,34 +83,78 @@ func implCR(f []string, o *oracleSink) string {
 		total += got
 		if err != nil {
 			eof = err == io.EOF
-			break
+			ended = true
+			return true
 		}
 		if n > 0 && got == 0 {
 			notes = append(notes, "NO-PROGRESS")
-			break
+			return false
 		}
-		if n == 0 && len(sizes) == 0 {
-			break
+		return true
+	}
+	// judge a finished session (its source, what it produced)
+	judge := func(src *scriptSrc, final bool, last int, hadReads bool) {
+		if eof && kvValid {
+			sz := "-"
+			if kv["sz"] > 0 {
+				sz = fmt.Sprint(kv["sz"])
+			}
+			o.ask("frame", "SF 1 "+saveBlob("cr", all), fmt.Sprintf("ok ver=1 indep=1 bc=%d cc=%d size=%s bmax=%d len=%d fnv=%d consumed=%d",
+				kv["bc"], kv["cc"], sz, kv["bs"], len(src.data), fnv(src.data), len(all)))
+			// after io.EOF the reader is done
+			if n, err := zr.Read(make([]byte, 8)); n != 0 || err == nil {
+				notes = append(notes, "READ-AFTER-EOF")
+			}
+		} else if src.failAt >= 0 && src.calls() > src.failAt {
+			if len(res) == 0 || !strings.HasSuffix(res[len(res)-1], "/injected") {
+				notes = append(notes, "SOURCE-ERROR-NOT-PASSED")
+			}
+		} else if final && aerr == nil && kvValid && !eof && len(notes) == 0 && hadReads && last > 0 {
+			notes = append(notes, "NO-EOF")
 		}
 	}
-	if eof && aerr == nil {
-		sz := "-"
-		if kv["sz"] > 0 {
-			sz = fmt.Sprint(kv["sz"])
+	last, hadReads := 0, false
+	toks := f[6:]
+	stop := false
+	for i, t := range toks {
+		switch {
+		case strings.HasPrefix(t, "R="):
+			judge(src, false, last, hadReads)
+			p := strings.Split(t[2:], ":")
+			src = mkSrc(p[0], p[1], p[2], p[3])
+			if r, ok := timed(func() string { zr.Reset(rc{src}); return "" }); !ok || r != "" {
+				res = append(res, "HANG-OR-PANIC:"+r)
+				notes = append(notes, "HANG")
+				stop = true
+			}
+			res = append(res, "-")
+			all, ended, eof, hadReads, last = nil, false, false, false, 0
+		case strings.HasPrefix(t, "A="):
+			res = append(res, errName(apply(t[2:])))
+		default:
+			n := atoi(t)
+			hadReads = true
+			last = n
+			if ended {
+				continue
+			}
+			if !readOne(n) {
+				stop = true
+			}
 		}
-		o.ask("frame", "SF 1 "+saveBlob("cr", all), fmt.Sprintf("ok ver=1 indep=1 bc=%d cc=%d size=%s bmax=%d len=%d fnv=%d consumed=%d",
-			kv["bc"], kv["cc"], sz, kv["bs"], len(data), fnv(data), len(all)))
-		// after io.EOF the reader is done
-		if n, err := zr.Read(make([]byte, 8)); n != 0 || err == nil {
-			notes = append(notes, "READ-AFTER-EOF")
+		if stop {
+			break
 		}
-	} else if src.failAt >= 0 && src.calls() > src.failAt {
-		if len(res) == 0 || !strings.HasSuffix(res[len(res)-1], "/injected") {
-			notes = append(notes, "SOURCE-ERROR-NOT-PASSED")
-		}
-	} else if aerr == nil && !eof && len(notes) == 0 && len(f[6:]) > 0 && last > 0 {
-		notes = append(notes, "NO-EOF")
+		_ = i
 	}
+	if !stop && hadReads && !ended && last > 0 {
+		for i := 0; i < 100000 && !ended; i++ {
+			if !readOne(last) {
+				break
+			}
+		}
+	}
+	judge(src, true, last, hadReads)
 	return fmt.Sprintf("%s %s ; total=%d ; %s", errName(aerr), strings.Join(res, " "), total, strings.Join(append(notes, "notes"), " "))
 }
 
@@ -141,5 +196,49 @@ func genCR(w *bufio.Writer, thorough bool, r *Rng) {
 			sizes = append(sizes, fmt.Sprint(r.Pick([]int{4096, 65536, 100000})))
 		}
 		fmt.Fprintf(w, "CR %s %s %d %d %d %s\n", opts, dataTok(r, sz, lvl), r.Pick([]int{0, 0, 1, 5000}), fail, r.Intn(2), strings.Join(sizes, " "))
+	}
+	// reuse: Reset (and Apply) in the middle of a stream, after io.EOF, and after a source failure
+	bss := []int{65536, 262144, 1048576, 4194304}
+	for i := 0; i < n/3+20; i++ {
+		opts := "-"
+		bs := 4 << 20
+		if r.Intn(3) != 0 {
+			bs = r.Pick(bss)
+			opts = fmt.Sprintf("bs=%d,bc=%d,cc=%d,lvl=0", bs, r.Intn(2), r.Intn(2))
+		}
+		sz := r.Pick([]int{0, 10, 3000, 70000, 200000})
+		fail := -1
+		if r.Intn(3) == 0 {
+			fail = r.Intn(4)
+		}
+		var toks []string
+		// first session: a few reads (mostly small: overflow stays pending), sometimes to the end
+		k := r.Intn(4)
+		for j := 0; j < k; j++ {
+			toks = append(toks, fmt.Sprint(r.Pick([]int{1, 3, 7, 8, 20, 100, 4096, 1 << 20})))
+		}
+		if r.Intn(4) == 0 {
+			for j := 0; j < 12; j++ {
+				toks = append(toks, "100000")
+			}
+		}
+		sessions := 1 + r.Intn(2)
+		for s := 0; s < sessions; s++ {
+			sz2 := r.Pick([]int{0, 5, 66000, 140000, 300000})
+			fail2 := -1
+			if s+1 < sessions && r.Intn(3) == 0 {
+				fail2 = r.Intn(4)
+			}
+			toks = append(toks, fmt.Sprintf("R=%s:%d:%d:%d", dataTok(r, sz2, 0), r.Pick([]int{0, 0, 5000}), fail2, r.Intn(2)))
+			if r.Intn(2) == 0 {
+				toks = append(toks, fmt.Sprintf("A=bs=%d,bc=%d", r.Pick(bss), r.Intn(2)))
+			}
+			k := 1 + r.Intn(3)
+			for j := 0; j < k; j++ {
+				toks = append(toks, fmt.Sprint(r.Pick([]int{1, 2, 5, 7, 15, 100, 4096, 70000})))
+			}
+		}
+		toks = append(toks, fmt.Sprint(r.Pick([]int{4096, 65536, 100000})))
+		fmt.Fprintf(w, "CR %s %s %d %d %d %s\n", opts, dataTok(r, sz, 0), r.Pick([]int{0, 0, 1, 5000}), fail, r.Intn(2), strings.Join(toks, " "))
 	}
 }
